@@ -1,8 +1,8 @@
 INIT Init
 NEXT Next
 CONSTANTS
-  MainProg <- MP5
-  IsrProg <- IP_E
+  MainProg <- MP4
+  IsrProg <- IP_H
   AQDepth = 8
   EQDepth = 2
   SPeriod = 2
@@ -11,7 +11,7 @@ CONSTANTS
   LoopForever = FALSE
   FastPathChecksAtomicQ = TRUE
   Sleeper = TRUE
-  SRun = FALSE
+  SRun = TRUE
 VIEW MCView
 INVARIANT Safety
 PROPERTY RetSeesCompleted
